@@ -1012,7 +1012,7 @@ impl Scenario for C01Cycles {
                         0 => (0usize, Fault::OpenErr(ENOENT)),
                         1 => (0, Fault::OpenErr(*cx.tape.pick(&[EACCES, EIO, EMFILE]))),
                         2 => (1, Fault::MetaErr),
-                        3 => (1, Fault::MetaSize(cx.tape.draw(4) as u8)),
+                        3 => (1, Fault::MetaSize(cx.tape.draw(5) as u8)),
                         4 | 5 => (2 + cx.tape.draw(3) as usize, Fault::ReadShort(1 + cx.tape.draw(16) as usize)),
                         6 | 7 => (2 + cx.tape.draw(3) as usize, Fault::ReadEintr),
                         _ => (2 + cx.tape.draw(2) as usize, Fault::ReadEio),
